@@ -41,6 +41,10 @@ func run(seed int64, n int, dir string, _ []string) {
 	dml.LoadCancelCorpus(g, o, root)
 	// corpus: CREATE TABLE failing while tables are open (case-insensitive name collision, existing file, …)
 	dml.CreateCorpus(g, o, root)
+	// corpus: failing ALTER TABLE SET <attribute> on tables of every format; attribute listing, then COMMIT bytes
+	dml.AttrCorpus(g, o, root)
+	// corpus: first access through a table function with non-default options, then plain names in failing / succeeding statements
+	dml.LoadFuncCorpus(g, o, root)
 
 	stmts := 0
 	scanned := false
